@@ -41,6 +41,9 @@ def N(t):
         sp_make=r'^std::__shared_count<\(__gnu_cxx::_Lock_policy\)2>::__shared_count<' + s + r'::state, std::allocator<void>>\(',
         st_ctor='^' + s + r'::state::state\(\)$',
         aw_subscribe=AWSUB,
+        coll_to_signal='^' + s + r'::collector::operator cocls::signal<%s>\(\)$' % t,
+        hue_ctor='^' + s + r'::hook_up_emitter<c15_reg>::hook_up_emitter\(c15_reg&&\)$',
+        hook_up=r'^auto ' + s + r'::hook_up<c15_reg>\(c15_reg&&\)$',
     )
 ABSTRACT = ('user_cb', 'user_reg', 'sp_make')
 def unit(name, alias, t='int', uses=(), harness=None, extra_types=None, ptypes=None, extra_boundary=(), extra_defines=(), names_opt_extra=None, extra_roots=(), **kw):
@@ -88,6 +91,25 @@ UNITS = [
     unit('em_resume_void', 'em_resume', t='void', harness='h_em_resume'),
     unit('awt_resume_void', 'awt_resume', t='void', uses=('user_cb',), ptypes=awt_ptypes('void'), extra_boundary=[N('void')['user_cb']], harness='h_awt_resume', timeout=600),
 ]
+# ---- signal<void>: the members that were only covered for T=int (same contracts: c15_spec.h is written over the type aliases; CV_C15_VOID selects the void forms)
+NV = N('void')
+HUE_T = {'HUE': 'cocls::signal<int>::hook_up_emitter<c15_reg>', 'REGT': 'c15_reg', 'ALLOCV': 'std::allocator<void>'}
+UNITS += [
+    unit('em_suspend_void', 'em_suspend', t='void', harness='h_em_suspend'),
+    unit('awt_invoke_void', 'awt_invoke', t='void', harness='h_awt_invoke', ptypes=awt_ptypes('void'), extra_boundary=[NV['awt_resume']], extra_defines=['CV_HAS_awt_invoke_u 1'], names_opt_extra={'awt_resume_abs': NV['awt_resume']}),
+    unit('awt_ctor_void', 'awt_ctor', t='void', harness='h_awt_ctor', uses=('awt_invoke',), ptypes=awt_ptypes('void', 'awt_ctor'), extra_types={'WPT': 'std::weak_ptr<cocls::signal<void>::state>'}),
+    unit('awt_initial_reg_void', 'awt_initial_reg', t='void', harness='h_awt_initial_reg', ptypes=awt_ptypes('void', 'awt_initial_reg'), extra_boundary=[NV['awt_resume']], names_opt_extra={'awt_resume_abs': NV['awt_resume']}),
+    unit('connect_void', 'connect', t='void', harness='h_connect', uses=('awt_invoke',), ptypes=awt_ptypes('void', 'awt_initial_reg'), extra_boundary=[NV['awt_initial_reg']], names_opt_extra={'awt_initial_reg_abs': NV['awt_initial_reg']}),
+    unit('get_emitter_void', 'get_emitter', t='void', harness='h_get_emitter'),
+    unit('get_collector_void', 'get_collector', t='void', harness='h_get_collector'),
+    unit('sig_dtor_void', 'sig_dtor', t='void', harness='h_sig_dtor'),
+    # ---- constructors / conversions: the initial state the other units start from (signal(), state::state() inlined; make_shared = control-block model)
+    unit('sig_ctor', 'sig_ctor', uses=('sp_make', 'st_ctor'), extra_types={'ALLOCV': 'std::allocator<void>'}, extra_roots=[N('int')['st_ctor']]),
+    unit('sig_ctor_void', 'sig_ctor', t='void', harness='h_sig_ctor', uses=('sp_make', 'st_ctor'), extra_types={'ALLOCV': 'std::allocator<void>'}, extra_roots=[NV['st_ctor']]),
+    unit('coll_to_signal', 'coll_to_signal'),
+    unit('hue_ctor', 'hue_ctor', extra_types=HUE_T),
+    unit('hook_up', 'hook_up', extra_types=HUE_T),
+]
 CHT = 'std::__n4861::coroutine_handle<void>'
 # std::atomic<awaiter*> members read sequentially at member-function level in the drives (pointer values must stay pointers for CBMC's symbolic execution)
 AP = {'ap_aw_load': r'^std::atomic<cocls::awaiter\*>::load\(std::memory_order\) const$', 'ap_aw_xchg': r'^std::atomic<cocls::awaiter\*>::exchange\(',
@@ -125,12 +147,27 @@ def incoro(nl):
     d['defines'] = [x for x in d['defines'] if not x.startswith('CV_FRAME_KINDS')] + ['CV_FRAME_KINDS X(1, S_c15_listener_Frame) X(2, S_c15_producer_Frame)', 'DRIVE_NLIST %d' % nl]
     return d
 UNITS += [incoro(1), incoro(2)]
+# ---- signal<void> end to end (bounded): each emission resumes every waiting listener exactly once; disconnect wakes all
+def shape_void(nl, late, lim):
+    nv = N('void')
+    d = drive('void', 'signal<void>: %d coroutine listener(s)%s + 1 connected callback that %s, 2 emissions, destruction of every handle; single thread, no spurious CAS failure'
+              % (nl, ' + 1 arriving between the emissions' if late else '', {1: 'stops after the first emission', 2: 'stops after the second emission', 3: 'never stops (released on disconnect)'}[lim]), replay=None)
+    d['name'] = 'drive_void_%dL%s_cb%d' % (nl, '_late' if late else '', lim)
+    d['roots'] = [r'^c15_drive_void$', nv['st_dtor'], nv['st_ctor']]
+    d['names'] = {'st_dtor': nv['st_dtor'], 'st_ctor': nv['st_ctor']}
+    d['names_opt'] = dict(AP, sp_make=nv['sp_make'])
+    d['types'] = dict(types('void'), CH=CHT, DQCH='std::deque<%s, std::allocator<%s > >' % (CHT, CHT), ALLOCV='std::allocator<void>')
+    d['defines'] = [x for x in d['defines'] if not x.startswith('CV_FRAME_KINDS')] + ['CV_FRAME_KINDS X(3, S_c15_listener_v_Frame)', 'CV_C15_VOID 1', 'DRIVE_NLIST %d' % nl, 'DRIVE_LATE %d' % late, 'DRIVE_LIM %d' % lim]
+    d['replay'] = dict(src='c15_void_drive.cpp', mode='C15V', flags=['-I', '/verif/drivers', '-g', '-fsanitize=address,undefined'])
+    return d
+UNITS += [shape_void(1, 0, 2), shape_void(2, 0, 3), shape_void(2, 1, 1), shape_void(3, 0, 3)]
 META = dict(
     level='proof',
     level_text=('Every function of signal.h that the property speaks about is verified against a contract taken from the property statement, thread-modularly: '
-        'state::notify_awaiters, state::~state, collector::operator() (rvalue / by value / lvalue reference / void), emitter::await_ready / await_suspend / await_resume (int and void), '
-        "connect(), its heap awaiter Awt (constructor, the resume lambda, Awt::resume for int and void, Awt::initial_reg), get_emitter / get_collector, ~signal, awaiter::subscribe and "
-        'hook_up_emitter::await_suspend (first and later co_awaits). The awaiter chain runs through protocol-S primitives: at every atomic step the environment may push other listeners, '
+        'signal() incl. state::state() (initial state: one owner, nobody listening, no value), state::notify_awaiters, state::~state, collector::operator() (rvalue / by value / lvalue reference / void), collector::operator signal(), '
+        'emitter::await_ready / await_suspend / await_resume (int and void), '
+        "connect(), its heap awaiter Awt (constructor, the resume lambda, Awt::resume, Awt::initial_reg), get_emitter / get_collector, ~signal (all of these for int AND void: units *_void), awaiter::subscribe, "
+        'hook_up() / hook_up_emitter constructor (not hooked, not connected: exactly the entry state of the first co_await) and hook_up_emitter::await_suspend (first and later co_awaits). The awaiter chain runs through protocol-S primitives: at every atomic step the environment may push other listeners, '
         'and - when the verified code is on the listening side - the emitting thread may detach the chain at any instant; std::shared_ptr/weak_ptr<state> is an explicit control block whose '
         'drop-to-zero runs the REAL translated ~state, and other threads may copy / drop their handles at every step (so the state may die before lock(), and the reference lock() took may '
         'become the last one). Clauses: a collector call makes the current-value pointer refer to the emitted value (an owned copy, or the caller\'s object for the lvalue overload) BEFORE it '
@@ -156,11 +193,11 @@ META = dict(
         'read state::_cur_val when they run, so a repair has to make the collector run them before it returns (changes the documented scheduling of a discarded suspend point inside a coroutine; the '
         '"nested" queue of install_queue_and_call is the same thread_local deque, so unrelated queued coroutines would run inside the collector) or give every released listener its own copy of the value '
         '(new per-emitter storage, copyable T, and still loses the later values) - a design decision, not a small patch. (An earlier version hid this behind a free ghost gh_prev_released, pinned only in requires.) '
-        'BOUNDED (never counted as discharged): drives drive_incoro_* (1..2 listeners, the two emissions made by a producer coroutine that discards the suspend points) and drives with 1..3 coroutine listeners (+1 arriving '
+        'BOUNDED (never counted as discharged): drives drive_void_* (signal<void>: 1..3 coroutine listeners (+1 late) + 1 callback, 2 emissions, destruction of every handle - each emission resumes every waiting listener exactly once, disconnect wakes all; oracle confirmed natively by replay/c15_void_drive.cpp), drives drive_incoro_* (1..2 listeners, the two emissions made by a producer coroutine that discards the suspend points) and drives with 1..3 coroutine listeners (+1 arriving '
         'between the signals) + 1 connected callback (stopping after 1, 2 or never), exactly 2 emissions with symbolic values, destruction of every handle, plus awaiting a destroyed / never '
         'connected emitter; single thread, std::atomic<awaiter*> read at member-function level, no spurious CAS failure; control (number of listeners, callback limit) is concrete per unit because '
         'symbolic control makes the lowered state machines fork beyond reach (measured). The drive oracle is confirmed natively (g++, ASan/UBSan) by replay/c15_drive.cpp. '
-        'Not covered: value types other than int / void (move-only, instance-counted), emitter copy / move / assignment operators, collector::operator signal(), hook_up() factory itself, '
+        'Not covered: value types other than int / void (move-only, instance-counted), emitter copy / move / assignment operators, hook_up_emitter for signal<void>, '
         'a user callback that throws (std::terminate by noexcept), liveness.'),
     technique='CBMC code contracts + loop contracts (CAS retry loop) via goto-instrument --dfcc on the C translation of clang IR of signal.h / awaiter.h; atomic instructions on the chain replaced by rely/guarantee protocol primitives with ownership ghosts; shared_ptr/weak_ptr as an explicit control block running the real destructor; bounded symbolic execution of really lowered coroutines',
     trusted_base=['protocol-S atomic primitives and environment model for state::_chain (lib/model_signal.c part A)',
